@@ -177,11 +177,12 @@ def gen_idx(tier, seed, want_big=True):
     if want_big:
         # chunked construction: n >= 2^15, 2..16 threads, duplicate runs placed on chunk seams
         bigs = [c for c in cfgs if c["kbits"] >= 32]
-        nbig = 3 if tier == "quick" else 24
+        nbig = 4 if tier == "quick" else 24
         for j in range(nbig):
             cfg = bigs[rng.randrange(len(bigs))]
             par = rng.choice([2, 3, 5, 8, 16]) if j else 16
             n = (1 << 15) + rng.randint(0, 600)
+            if j % 4 == 3 and n % par == 0: n += 1       # all keys distinct (big_keys mode 3) and a remainder for the last chunk
             keys = big_keys(rng, cfg, n, par, j)
             ks = sorted(set(keys))
             qs = set()
@@ -220,7 +221,7 @@ def big_keys(rng, cfg, n, par, variant):
         elif mode == 2 and pos > n - 2500 and rng.random() < 0.9:
             keys += [k] * (n - pos)       # one run reaching n-1 from an earlier chunk
         else:
-            L = rng.choice([1, 1, 1, 2, rng.randint(1, 2 * eps + 3)])
+            L = 1 if mode == 3 else rng.choice([1, 1, 1, 2, rng.randint(1, 2 * eps + 3)])     # mode 3: all keys distinct
             keys += [k] * L
             k += rng.choice([1, 1, 2, 3, rng.randint(1, 100)])
         k = min(top, k)
@@ -241,12 +242,13 @@ def gen_seg(tier, seed):
         cases.append(seg_case("s%d" % j, kb, sg, eps, 1, keys))
         stats["styles"][style] = stats["styles"].get(style, 0) + 1
         stats["eps"][str(eps) if eps in (0, 1, 2) else "3..16" if eps <= 16 else ">16"] = stats["eps"].get(str(eps) if eps in (0, 1, 2) else "3..16" if eps <= 16 else ">16", 0) + 1
-    nbig = 3 if tier == "quick" else 20
+    nbig = 4 if tier == "quick" else 20
     for j in range(nbig):
         kb, sg = rng.choice([(32, 0), (64, 0), (64, 1), (32, 1)])
         eps = rng.choice([1, 2, 8, 64])
         par = rng.choice([2, 4, 7, 16])
         n = (1 << 15) + rng.randint(0, 500)
+        if j % 4 == 3 and n % par == 0: n += 1           # distinct keys, a remainder for the last chunk
         keys = big_keys(rng, dict(kbits=kb, signed=sg, eps=eps), n, par, j)
         cases.append(seg_case("sb%d" % j, kb, sg, eps, par, keys))
         stats["n"]["n>=2^15"] = stats["n"].get("n>=2^15", 0) + 1
